@@ -1,0 +1,48 @@
+// SPDX-FileCopyrightText: 2026 The Pion community <https://pion.ly>
+// SPDX-License-Identifier: MIT
+
+//go:build verif
+
+package stats
+
+import (
+	"time"
+
+	"github.com/pion/logging"
+	"github.com/pion/rtcp"
+)
+
+// C12Recorder wraps the unexported recorder (property C12: lengths of the
+// report lists). Only compiled with the "verif" build tag.
+type C12Recorder struct{ r *recorder }
+
+// C12NewRecorder calls newRecorder and starts it.
+func C12NewRecorder(ssrc uint32, clockRate float64) *C12Recorder {
+	r := newRecorder(ssrc, clockRate, logging.NewDefaultLoggerFactory())
+	r.Start()
+
+	return &C12Recorder{r: r}
+}
+
+// OutgoingRTCP calls QueueOutgoingRTCP.
+func (v *C12Recorder) OutgoingRTCP(ts time.Time, pkts []rtcp.Packet) {
+	v.r.QueueOutgoingRTCP(ts, pkts, nil)
+}
+
+// Sizes returns len and cap of lastSenderReports and lastReceiverReferenceTimes.
+func (v *C12Recorder) Sizes() (int, int, int, int) {
+	v.r.ms.Lock()
+	defer v.r.ms.Unlock()
+	s := v.r.latestStats
+
+	return len(s.lastSenderReports), cap(s.lastSenderReports),
+		len(s.lastReceiverReferenceTimes), cap(s.lastReceiverReferenceTimes)
+}
+
+// C12Recorders returns len(recorders).
+func C12Recorders(i *Interceptor) int {
+	i.lock.Lock()
+	defer i.lock.Unlock()
+
+	return len(i.recorders)
+}
